@@ -416,6 +416,9 @@ def _co(o):
         o = int(o)
     if type(o) is int:
         return z3.BitVecVal(o, _bits(o, o)), o, o
+    if isinstance(o, int):          # int subclasses (enum.IntEnum members, ...) count with their value
+        o = int(o)
+        return z3.BitVecVal(o, _bits(o, o)), o, o
     if isinstance(o, SymBool):
         i = o.as_int()
         return i.e, 0, 1
